@@ -1055,6 +1055,10 @@ class Exec:
             if a is None:
                 return b.is_none()
             b = self.concretize(b)
+        if type(a).__name__ == 'TableGet' and b is None:
+            return a.is_none(self)
+        if type(b).__name__ == 'TableGet' and a is None:
+            return b.is_none(self)
         if a is None or b is None:
             return a is b
         if isinstance(a, (Sym, int, bool, float)) and isinstance(b, ClassVal) or isinstance(b, Builtin):
@@ -1649,6 +1653,23 @@ def ast_load(t):
         if hasattr(n, 'ctx'):
             n.ctx = ast.Load()
     return t2
+
+
+def built_instance(ex, ci, known=None, args=(), kwargs=None):
+    """An object of a repository class in an arbitrary reachable state: the real constructor of the class builds it (so an
+    attribute the constructor adds exists in the harness too), every attribute that holds a mutable container and is not
+    given in `known` then has unknown content (the object may have any history of earlier calls), and the attributes of
+    `known` are replaced by the harness's symbolic values."""
+    from .abssets import HavocState
+    known = dict(known or {})
+    obj = ex.instantiate(ci, list(args), dict(kwargs or {}))
+    for a, v in list(obj.attrs.items()):
+        if a in known:
+            continue
+        if isinstance(v, (dict, list, set, bytearray)) or type(v).__name__ in ('SymMap', 'AbsSet'):
+            obj.attrs[a] = HavocState(f'{ci.name}.{a}')
+    obj.attrs.update(known)
+    return obj
 
 
 # ----------------------------------------------------------------------------
